@@ -45,6 +45,27 @@ def c01(rng, tier):
         for b in (0, 1, -1, MAXD, -MAXD, 1 << 64, -(1 << 64)):
             cases.append("i.checked_add %s %s" % (I(a), I(b)))
             cases.append("i.checked_sub %s %s" % (I(a), I(b)))
+    # hook level: `sub2rev(a, b)`: b := a - b in the longer-or-equal buffer b (the `&a - b` path); the op
+    # existed in harness and driver but no generator produced it.  |b| >= |a| is its debug precondition
+    # (violated in a few cases: both sides must then report the assertion), b > a must panic.
+    for _ in range(1200 if tier == "thorough" else 150):
+        la = rng.choice([0, 1, 2, 4, 5, 6, 9, 10, 11])
+        lb = la + rng.choice([0, 0, 0, 1, 2, 5])
+        a = rand_digits(rng, la, rng.choice(["rand", "ones", "sparse"])) if la else []
+        k = rng.random()
+        if k < 0.5:       # b <= a: low part below a, high part zero
+            x = val(a)
+            y = rng.choice([x, 0, x - 1 if x else 0, rng.randrange(0, x + 1)])
+            b = to_digits(y)
+            b = b + [0] * (lb - len(b)) if len(b) <= lb else b
+        elif k < 0.75:    # borrow out of the common part
+            b = [MAXD] * la + [0] * (lb - la)
+        else:             # non-zero tail: b > a
+            b = (rand_digits(rng, la, "rand") if la else []) + [0] * (lb - la)
+            if lb > la:
+                b[-1] = rng.choice([1, MAXD])
+        cases.append("h.sub2rev %s %s" % (D(a), D(b)))
+    cases += ["h.sub2rev d: d:", "h.sub2rev d:1 d:", "h.sub2rev d:1,2 d:1", "h.sub2rev d:5 d:5,0,0", "h.sub2rev d:5 d:6", "h.sub2rev d:0,1 d:1,0"]
     return cases
 
 # --------------------------------------------------------------------------------------- C04
